@@ -48,6 +48,11 @@ func (m msgServer) CreateHTLC(
 		return nil, errorsmod.Wrapf(sdkerrors.ErrUnauthorized, "%s is a module account", msg.To)
 	}
 
+	// the module's own account is the escrow: a contract paid out to it would never leave escrow
+	if to.Equals(m.k.accountKeeper.GetModuleAddress(types.ModuleName)) {
+		return nil, errorsmod.Wrapf(sdkerrors.ErrUnauthorized, "%s is the %s module account", msg.To, types.ModuleName)
+	}
+
 	ctx := sdk.UnwrapSDKContext(goCtx)
 	id, err := m.k.CreateHTLC(
 		ctx,
